@@ -680,21 +680,45 @@ class Hugr(Mapping[Node, NodeData], Generic[OpVarCov]):
 
     def _to_serial(self) -> SerialHugr:
         """Serialize the HUGR."""
-        # a list, not a generator: it is traversed twice (nodes and metadata)
-        node_it = [node for node in self._nodes if node is not None]
+        # Live nodes in index order, the root first and no node before its parent:
+        # indices of deleted nodes are reused, so a child may have a lower index
+        # than its parent.
+        order: list[NodeIdx] = []
+        new_idx: dict[NodeIdx, NodeIdx] = {}
+
+        def place(idx: NodeIdx) -> None:
+            if idx in new_idx:
+                return
+            parent = self[Node(idx)].parent
+            if parent is not None:
+                place(parent.idx)
+            new_idx[idx] = len(order)
+            order.append(idx)
+
+        place(self.root.idx)
+        for idx, data in enumerate(self._nodes):
+            if data is not None:
+                place(idx)
+
+        def _serialize_node(idx: NodeIdx) -> SerialOp:
+            data = self[Node(idx)]
+            # the root is its own parent
+            parent = data.parent.idx if data.parent else idx
+            return SerialOp(root=data.op._to_serial(Node(new_idx[parent])))  # type: ignore[arg-type]
 
         def _serialize_link(
             link: tuple[_SO, _SI],
         ) -> tuple[tuple[NodeIdx, PortOffset], tuple[NodeIdx, PortOffset]]:
             src, dst = link
             s, d = self._constrain_offset(src.port), self._constrain_offset(dst.port)
-            return (src.port.node.idx, s), (dst.port.node.idx, d)
+            return (new_idx[src.port.node.idx], s), (new_idx[dst.port.node.idx], d)
 
         return SerialHugr(
-            # non contiguous indices will be erased
-            nodes=[node._to_serial(Node(idx, {})) for idx, node in enumerate(node_it)],
+            # non contiguous indices are erased: nodes, parents and edge
+            # endpoints all use the position in the emitted node list
+            nodes=[_serialize_node(idx) for idx in order],
             edges=[_serialize_link(link) for link in self._links.items()],
-            metadata=[node.metadata if node.metadata else None for node in node_it],
+            metadata=[self[Node(idx)].metadata or None for idx in order],
         )
 
     def _constrain_offset(self, p: P) -> PortOffset:
